@@ -391,9 +391,9 @@ type SelStats struct {
 	WhereStrict      bool // some WHERE evaluation kept a strict non-empty subset
 	LateralEmptyLeft bool // a LATERAL join was evaluated with no row on its left side
 	DupJoinStar      bool // * over a relation with two merged columns of the same name
-	RightUsingOpen   bool // RIGHT join merged a USING column whose two spellings differ
+	RightUsingOpen   bool // RIGHT join merged a USING column whose two values differ in spelling or type
 	OpenCmp          bool // a comparison ended at the open text rung
-	Pairs            int  // row pairs examined by joins
+	Pairs            int  // work: row pairs examined by joins, rows filtered and projected
 }
 
 type SelResult struct {
@@ -405,7 +405,7 @@ type SelResult struct {
 
 const (
 	selMaxRows  = 400000
-	selMaxPairs = 6000000
+	selMaxPairs = 2500000
 	selMaxIter  = 64
 )
 
@@ -454,18 +454,25 @@ type selCmpVal struct {
 }
 
 type selEval struct {
-	tables   map[string]*SelTable
-	openText bool
-	stats    SelStats
-	quiet    int // >0: shape-only evaluation, statistics are not recorded
-	nextID   int
-	resolved map[selResKey]selResVal
-	cmpCache map[selCmpKey]selCmpVal
+	tables     map[string]*SelTable
+	openText   bool
+	rightUsing bool
+	stats      SelStats
+	quiet      int // >0: shape-only evaluation, statistics are not recorded
+	nextID     int
+	resolved   map[selResKey]selResVal
+	cmpCache   map[selCmpKey]selCmpVal
+}
+
+// SelReading fixes the outcomes the manual leaves open.
+type SelReading struct {
+	OpenText   bool // Integer vs non-numeric String: compare the texts (else UNKNOWN)
+	RightUsing bool // RIGHT JOIN ... USING/NATURAL: the merged column shows the right side's value when both sides have one (else the left side's)
 }
 
 // SelEval interprets the query over the tables.
-func SelEval(tables []SelTable, q *SelQuery, openText bool) (*SelResult, error) {
-	ev := &selEval{tables: map[string]*SelTable{}, openText: openText,
+func SelEval(tables []SelTable, q *SelQuery, rd SelReading) (*SelResult, error) {
+	ev := &selEval{tables: map[string]*SelTable{}, openText: rd.OpenText, rightUsing: rd.RightUsing,
 		resolved: map[selResKey]selResVal{}, cmpCache: map[selCmpKey]selCmpVal{}}
 	for i := range tables {
 		ev.tables[tables[i].Name] = &tables[i]
@@ -475,6 +482,16 @@ func SelEval(tables []SelTable, q *SelQuery, openText bool) (*SelResult, error) 
 		return nil, err
 	}
 	return &SelResult{Labels: labels, Rows: rel.rows, Ordered: rel.ordered, Stats: ev.stats}, nil
+}
+
+// charge accounts for n units of work (row pairs joined, rows filtered or
+// projected); beyond the budget the case is given up as too big.
+func (ev *selEval) charge(n int) error {
+	ev.stats.Pairs += n
+	if ev.stats.Pairs > selMaxPairs {
+		return selErr("too_big", "more than %d rows and row pairs to examine", selMaxPairs)
+	}
+	return nil
 }
 
 func (ev *selEval) newID() int {
@@ -776,9 +793,8 @@ func (ev *selEval) joinRows(s *SelSource, left, right *selRel, outer *selScope) 
 			return nil, err
 		}
 	}
-	ev.stats.Pairs += len(left.rows) * len(right.rows)
-	if ev.stats.Pairs > selMaxPairs {
-		return nil, selErr("too_big", "more than %d row pairs", selMaxPairs)
+	if err := ev.charge(len(left.rows)*len(right.rows) + len(left.rows) + len(right.rows)); err != nil {
+		return nil, err
 	}
 	var rows [][]val.Val
 	emit := func(l, r []val.Val) {
@@ -858,8 +874,15 @@ func (ev *selEval) joinRows(s *SelSource, left, right *selRel, outer *selScope) 
 				v := l // COALESCE(left, right)
 				if l.IsNull() {
 					v = r
-				} else if s.JoinType == "RIGHT" && !r.IsNull() && l.S != r.S && ev.quiet == 0 {
-					ev.stats.RightUsingOpen = true
+				} else if s.JoinType == "RIGHT" && !r.IsNull() && l != r {
+					// equal values of different spelling or type: which one a
+					// RIGHT join shows is not documented
+					if ev.quiet == 0 {
+						ev.stats.RightUsingOpen = true
+					}
+					if ev.rightUsing {
+						v = r
+					}
 				}
 				out = append(out, v)
 			}
@@ -1078,6 +1101,9 @@ func (ev *selEval) query(q *SelQuery, env *selEnv, outer *selScope) (*selRel, []
 	}
 	sc := &selScope{cols: rel.cols, id: rel.id, parent: outer}
 	rows := rel.rows
+	if err := ev.charge(2*len(rows) + 1); err != nil {
+		return nil, nil, err
+	}
 	if q.Where != nil {
 		if len(rows) == 0 {
 			sc.row = nullRow(len(rel.cols))
